@@ -1,6 +1,7 @@
 package main
 
 // component "producer" (C15): real KafkaProducer / ErrorProducer nodes over a scripted MessageProducer.
+// ctxreport <errkind> <a> <b> <c>: the report is built by node.Context.handleFailure for an event with Created beyond year 9999
 // input: "cfg <topic|~> ; req <topic|~> <valuehex|-> | other | report <isReport> <serialisable> <errkind> <a> <b> <c> ; ..."
 // All ops of a case run on the same pair of nodes; the records are read back only after the last op.
 
@@ -19,6 +20,8 @@ import (
 	"github.com/confluentinc/confluent-kafka-go/kafka"
 
 	"github.com/digitalocean/firebolt"
+	"github.com/digitalocean/firebolt/fbcontext"
+	"github.com/digitalocean/firebolt/node"
 	"github.com/digitalocean/firebolt/node/kafkaproducer"
 )
 
@@ -46,6 +49,7 @@ func genProducer(r *rng, n int, tier string, emit func(string)) {
 		"cfg errs ; report 1 1 plain boom ~ ~ ; report 1 1 fb E_X msg ~ ; report 1 1 fbinfo E_X msg ~ ; report 1 1 wrapped E_X msg ctx ; report 1 1 ptrfb E_X msg ~",
 		"cfg errs ; report 1 0 plain boom ~ ~ ; report 1 0 fb E_X msg ~ ; report 0 1 plain x ~ ~",
 		"cfg ~ ; report 1 1 plain boom ~ ~",
+		"cfg errs ; ctxreport plain boom ~ ~ ; ctxreport fb E_X msg ~ ; report 1 1 plain x ~ ~",
 		"cfg t ; req a 01 ; req b 02 ; req ~ 03 ; req c 04",
 		"cfg t ; req ~ *1000001 ; req o1 *2500000 ; req ~ 01",
 		"cfg t bp ; req a 01 ; req b 02 ; req ~ 03 ; req c 04 ; req ~ 05 ; req ~ 06 ; report 1 1 plain boom ~ ~ ; report 1 1 fb E_X msg ~",
@@ -73,6 +77,10 @@ func genProducer(r *rng, n int, tier string, emit func(string)) {
 				ops = append(ops, "other")
 			default:
 				k := r.pickS("plain", "fb", "fbinfo", "wrapped", "ptrfb")
+				if r.chance(8) {
+					ops = append(ops, fmt.Sprintf("ctxreport %s %s %s %s", k, safeStrs[r.intn(len(safeStrs))], safeStrs[r.intn(len(safeStrs))], safeStrs[r.intn(len(safeStrs))]))
+					continue
+				}
 				ops = append(ops, fmt.Sprintf("report %s %s %s %s %s %s", b01(r.chance(93)), b01(r.chance(70)), k,
 					safeStrs[r.intn(len(safeStrs))], safeStrs[r.intn(len(safeStrs))], safeStrs[r.intn(len(safeStrs))]))
 			}
@@ -92,7 +100,19 @@ type unserialisable struct {
 	C chan int
 }
 
+// failingNode is a sync node that fails every event with the given error
+type failingNode struct {
+	fbcontext.ContextAware
+	err error
+}
+
+func (n *failingNode) Setup(map[string]string) error                    { return nil }
+func (n *failingNode) Process(*firebolt.Event) (*firebolt.Event, error) { return nil, n.err }
+func (n *failingNode) Shutdown() error                                  { return nil }
+func (n *failingNode) Receive(fbcontext.Message) error                  { return nil }
+
 func execProducer(input string) string {
+	consumerMetrics() // metrics.Init: node contexts count through the process-wide collectors
 	segs := strings.Split(input, ";")
 	hd := strings.Fields(segs[0])
 	if (len(hd) != 2 && !(len(hd) == 3 && hd[2] == "bp")) || hd[0] != "cfg" {
@@ -155,7 +175,14 @@ func execProducer(input string) string {
 		case "other":
 			res, err := kp.Process(&firebolt.Event{Payload: "not a request", Created: time.Now()})
 			ps = append(ps, pending{kind: "produce", ok: err == nil, childRes: res != nil})
-		case "report":
+		case "report", "ctxreport":
+			viaCtx := f[0] == "ctxreport"
+			if viaCtx {
+				if len(f) != 5 {
+					return "bad-input"
+				}
+				f = []string{"report", "1", "0", f[1], f[2], f[3], f[4]}
+			}
 			if len(f) != 7 {
 				return "bad-input"
 			}
@@ -209,6 +236,21 @@ func execProducer(input string) string {
 			var evPayload interface{} = "not an error report"
 			if f[1] == "1" {
 				evPayload = firebolt.EventError{Timestamp: failed.Created, Event: failed, Err: e}
+			}
+			if viaCtx {
+				// the report as the executor builds it: a node fails an event whose Created lies far outside what JSON can carry
+				// (a source that read a timestamp in the wrong unit); its error handler's context receives the report
+				failed = &firebolt.Event{Payload: "text " + a, Created: time.Date(20000+i, 1, 1, 0, 0, 0, 0, time.UTC)}
+				hctx := &node.Context{Config: &node.Config{ID: "vrep-handler", BufferSize: 4}, Ch: make(chan firebolt.Event, 4)}
+				nctx := &node.Context{Config: &node.Config{ID: "vrep-node", Workers: 1, BufferSize: 1}, NodeType: node.Sync,
+					NodeProcessor: &failingNode{err: e}, ErrorHandler: hctx}
+				nctx.ProcessEvent(failed)
+				select {
+				case rep := <-hctx.Ch:
+					evPayload = rep.Payload
+				default:
+					evPayload = "no report reached the handler"
+				}
 			}
 			res, err := ep.Process(&firebolt.Event{Payload: evPayload, Created: time.Now()})
 			var evJSON []byte
